@@ -216,6 +216,7 @@ pub static C09: Profile = Profile {
     liveness: true,
     enumerate: None,
     extra: None,
+    borrow: &["C01", "C02", "C03", "C04", "C05", "C06", "C07", "C08", "C10", "C11", "C12", "C13", "C14", "C15", "C18"],
     assumptions: &[
         "on_unsubscribe is observable for direct and channeled subscribers; for selector subscriptions only 'notified while registered' and 'silent afterwards' are",
         "a subscriber registered while a shutdown is already under way may legitimately get no on_unsubscribe",
@@ -493,6 +494,7 @@ pub static C10: Profile = Profile {
     liveness: true,
     enumerate: None,
     extra: None,
+    borrow: &[],
     assumptions: &["the reference stream is that of a direct subscriber registered just before the channeled one (with a drop-policy store it contains what the reducer actually took)"],
 };
 
@@ -667,5 +669,6 @@ pub static C14: Profile = Profile {
     liveness: true,
     enumerate: None,
     extra: None,
+    borrow: &[],
     assumptions: &["store policy is BlockOnFull so that D's stream is the full notification sequence"],
 };
